@@ -5,4 +5,5 @@ import "github.com/consensys/gnark/internal/verifh/bk"
 func registerMore(k *bk.Kit) {
 	k.Run["c02"] = RunC02
 	k.Run["c08"] = RunC08
+	k.Run["c20"] = RunC20
 }
